@@ -4,6 +4,7 @@ package main
 
 import (
 	"bufio"
+	"bytes"
 	"fmt"
 	"io"
 	"os/exec"
@@ -371,4 +372,39 @@ func parseValues(txt string, n int) ([]uint64, error) {
 		i++
 	}
 	return out, nil
+}
+
+// StandaloneCheck decides the conjunction of the assertions in a fresh,
+// non-incremental solver process (z3's one-shot QF_BV tactic bit-blasts and is
+// often much faster than the incremental core on arithmetic-heavy queries).
+func StandaloneCheck(bin string, assertions []*Term, timeoutMs int) SatResult {
+	var buf bytes.Buffer
+	s := &Solver{emitted: make(map[*Term]int), byLevel: [][]*Term{nil}, in: bufio.NewWriter(&buf)}
+	s.send("(set-logic QF_BV)")
+	for _, a := range assertions {
+		if a.isConst() {
+			if a.k == 0 {
+				return Unsat
+			}
+			continue
+		}
+		s.Assert(a)
+	}
+	s.send("(check-sat)")
+	s.in.Flush()
+	args := []string{"-in", "-smt2", fmt.Sprintf("-T:%d", (timeoutMs+999)/1000)}
+	if strings.Contains(bin, "cvc5") {
+		args = []string{"--lang=smt2", fmt.Sprintf("--tlimit=%d", timeoutMs)}
+	}
+	cmd := exec.Command(bin, args...)
+	cmd.Stdin = &buf
+	out, _ := cmd.Output()
+	txt := strings.TrimSpace(string(out))
+	switch {
+	case strings.HasPrefix(txt, "unsat"):
+		return Unsat
+	case strings.HasPrefix(txt, "sat"):
+		return Sat
+	}
+	return Unknown
 }
